@@ -1,7 +1,7 @@
 #!/bin/bash
 # usage: import_seed2.sh <PROP>  -- confirm a second-round sub-agent seed (/tmp/wt2_<PROP>/seed_c) and keep it as /verif/seeded/<PROP>c
 set -u
-P=$1; WT=/tmp/wt2_$P; SD=$WT/seed_c; OUT=/verif/seeded/${P}c
+P=$1; PFX=${2:-wt2}; SFX=${3:-c}; WT=/tmp/${PFX}_$P; SD=$WT/seed_c; OUT=/verif/seeded/${P}${SFX}
 export GOFLAGS=-mod=mod GOPROXY=off GOSUMDB=off GOTOOLCHAIN=local
 [ -f $SD/patch.diff ] || { echo "$P: no patch"; exit 1; }
 TMP=/tmp/imp2_$P; rm -rf $TMP; mkdir -p $TMP; cp $SD/patch.diff $SD/demo_test.go $SD/notes.md $TMP/
@@ -22,12 +22,12 @@ if [ "$r_clean" = 0 ] && [ "$r_demo" != 0 ] && [ "$r_suite" = 0 ]; then
   python3 - "$P" "$TN" <<'PY'
 import json,sys
 P,TN=sys.argv[1:3]
-meta={"id":f"{P}c","breaks_property":P,"demo_test":TN,"round":2,
+meta={"id":f"{P}"+SFX,"breaks_property":P,"demo_test":TN,"round":2,
  "needs_to_manifest":"see notes.md (written by the sub-agent that produced the change)",
  "confirmed_by":"tools/import_seed2.sh in the sub-agent's scratch worktree of the repaired tree: demo passes on the unchanged tree; with the patch the whole suite passes and the demo fails",
  "note":"second-round seed, produced AFTER the contracts were written and not used to shape them",
  "detected_by":[]}
-json.dump(meta,open(f'/verif/seeded/{P}c/meta.json','w'),indent=1)
+json.dump(meta,open(f'/verif/seeded/{P}" + SFX + "/meta.json','w'),indent=1)
 PY
   echo "$P c: KEPT"
 else
